@@ -9,7 +9,7 @@ recomputed from the proto by harness/c13.py (`analyze`).  All randomness comes f
 Profiles (what may appear):
   clean     names plain or dirty; while-loops and Ifs; constants never used directly as the source of an emitted
             assignment; initializers plainly named; non-finite values only in constants that are not inlinable
-  straight  no control flow
+  straight  no control flow                 scollide  straight + planted collisions     sfn  straight, for a FunctionProto
   collide   names planted to coincide after clean-up
   consts    constants everywhere: as loop-carried initial values, trip counts, branch outputs, graph outputs;
             non-finite 0-d/1-d constants; initializers with names needing clean-up
@@ -449,21 +449,21 @@ class ModelGen:
         self.init_names = set()
         self.large_inits = []
         self.shape = r.choice([[3], [2, 2], [5], [2, 3], [1, 4], [2, 3], [5]])
-        policy = {"collide": "collide", "forloop": "plain", "forcond": "plain", "swap": "plain"}.get(profile, r.choice(["plain", "dirty", "dirty"]))
+        policy = {"collide": "collide", "scollide": "collide", "forloop": "plain", "forcond": "plain", "swap": "plain"}.get(profile, r.choice(["plain", "dirty", "dirty"]))
         self.names = Names(rng, policy)
         self.clean_consts = profile != "consts"
-        self.special = profile in ("consts", "clean", "straight", "fn")
+        self.special = profile in ("consts", "clean", "straight", "fn", "scollide", "sfn")
         self.swap_loops = profile == "swap"
-        self.allow_inits = profile != "fn"
+        self.allow_inits = profile not in ("fn", "sfn")
         self.node_name_p = r.choice([0.0, 0.0, 0.5])
         self.max_depth = 2
-        self.budget_cf = 0 if profile == "straight" else r.choice([0, 1, 2, 3])
+        self.budget_cf = 0 if profile in ("straight", "scollide", "sfn") else r.choice([0, 1, 2, 3])
         self.w_if = 1.5
         self.w_loop = 1.5
         self.loop_kinds = {
             "clean": ["while"], "straight": [], "collide": ["while"], "consts": ["while"],
             "forloop": ["for"], "forcond": ["forcond", "forpass", "whileiter"], "swap": ["while"],
-            "fn": ["for", "while", "for"],
+            "fn": ["for", "while", "for"], "scollide": [], "sfn": [],
         }[profile]
         self.trip_input = None
 
@@ -632,12 +632,12 @@ def random_models(rng, count, profiles=MODEL_PROFILES):
     return cases, rejected
 
 
-def random_functions(rng, count):
+def random_functions(rng, count, profile="fn"):
     cases, rejected, attempts = [], 0, 0
     while len(cases) < count and attempts < count * 6:
         attempts += 1
         sub = _random.Random(rng.getrandbits(64))
-        mg = ModelGen(sub, "fn")
+        mg = ModelGen(sub, profile)
         try:
             model, feeds = mg.build()
             onnx.checker.check_model(model, full_check=True)
@@ -648,7 +648,7 @@ def random_functions(rng, count):
         fname = sub.choice(["f", "fn.1", "my-func", "Block", "def"])
         fp = h.make_function("this", fname, [i.name for i in g.input], [o.name for o in g.output], list(g.node),
                              opset_imports=[h.make_opsetid("", OPSET)])
-        cases.append({"id": f"fn{len(cases)}", "kind": "function", "origin": "generated", "profile": "fn", "proto": fp,
+        cases.append({"id": f"fn{len(cases)}", "kind": "function", "origin": "generated", "profile": profile, "proto": fp,
                       "feeds": feeds, "iface": (list(g.input), list(g.output))})
     return cases, rejected
 
